@@ -31,6 +31,7 @@ type mutant struct {
 	Why    string // the realistic change it imitates
 	Append string // text appended to the file (helper functions a refactoring introduces)
 	Benign bool   // behaviour-preserving variant: NO rule of any property may report
+	Patch  string // a seeded change (unified diff under <verif>/seeded/<id>/patch.diff) applied as a multi-file overlay
 }
 
 var mutants []mutant
@@ -68,6 +69,9 @@ func nthIndex(s, sub string, n int) int {
 func runSelfTest(c *Ctx, def *propDef, repo, verif string) (bool, any) {
 	var todo []mutant
 	for _, m := range mutants {
+		if only := os.Getenv("VARMQLINT_ONLY"); only != "" && !strings.Contains(m.ID, only) {
+			continue
+		}
 		if m.Benign {
 			// benign variants are run against every property (thorough), a few of them on every run
 			if c.Tier != "thorough" && !m.Quick {
@@ -84,6 +88,9 @@ func runSelfTest(c *Ctx, def *propDef, repo, verif string) (bool, any) {
 			continue
 		}
 		todo = append(todo, m)
+	}
+	if c.Tier == "thorough" {
+		todo = append(todo, seededMutants(verif, def.ID)...)
 	}
 	exe, err := os.Executable()
 	if err != nil {
@@ -123,20 +130,31 @@ func runSelfTest(c *Ctx, def *propDef, repo, verif string) (bool, any) {
 
 func runMutant(exe, repo, verif string, m mutant) mutantResult {
 	res := mutantResult{ID: m.ID, Why: m.Why, Expect: m.Expect}
-	path := filepath.Join(repo, m.File)
-	src, err := os.ReadFile(path)
-	if err != nil {
-		res.Status = "skipped (target absent)"
-		return res
+	var ov []byte
+	if m.Patch != "" {
+		files, err := patchOverlay(repo, m.Patch)
+		if err != nil {
+			res.Status = "skipped (target absent)"
+			res.Reported = []string{err.Error()}
+			return res
+		}
+		ov, _ = json.Marshal(files)
+	} else {
+		path := filepath.Join(repo, m.File)
+		src, err := os.ReadFile(path)
+		if err != nil {
+			res.Status = "skipped (target absent)"
+			return res
+		}
+		s := string(src)
+		idx := nthIndex(s, m.Old, m.N)
+		if idx < 0 {
+			res.Status = "skipped (target absent)"
+			return res
+		}
+		mut := s[:idx] + m.New + s[idx+len(m.Old):] + m.Append
+		ov, _ = json.Marshal(map[string]string{path: mut})
 	}
-	s := string(src)
-	idx := nthIndex(s, m.Old, m.N)
-	if idx < 0 {
-		res.Status = "skipped (target absent)"
-		return res
-	}
-	mut := s[:idx] + m.New + s[idx+len(m.Old):] + m.Append
-	ov, _ := json.Marshal(map[string]string{path: mut})
 	tmp, err := os.CreateTemp("", "varmqlint-mutant-*.json")
 	if err != nil {
 		res.Status = "invalid (does not type-check)"
@@ -162,7 +180,7 @@ func runMutant(exe, repo, verif string, m mutant) mutantResult {
 	}
 	for _, f := range fs {
 		res.Reported = append(res.Reported, f.Rule+" "+f.Func+": "+f.Construct)
-		if f.Rule == m.Expect {
+		if f.Rule == m.Expect || m.Expect == "" {
 			res.Status = "detected"
 		}
 	}
@@ -181,4 +199,95 @@ func runMutant(exe, repo, verif string, m mutant) mutantResult {
 		res.Reported = append(res.Reported[:6], fmt.Sprintf("… %d more", len(res.Reported)-6))
 	}
 	return res
+}
+
+// seededMutants: the confirmed seeded changes kept under <verif>/seeded (each one compiles, passes the existing test
+// suite and breaks the named property — see its meta.json) are replayed at the thorough tier as overlays: the check of
+// the property each was written against has to report it.
+func seededMutants(verif, prop string) []mutant {
+	var out []mutant
+	metas, _ := filepath.Glob(filepath.Join(verif, "seeded", "*", "meta.json"))
+	sort.Strings(metas)
+	for _, mp := range metas {
+		b, err := os.ReadFile(mp)
+		if err != nil {
+			continue
+		}
+		var meta struct {
+			Property string `json:"property"`
+			Breaks   string `json:"breaks_property"`
+			Summary  string `json:"summary"`
+			What     string `json:"what"`
+		}
+		if json.Unmarshal(b, &meta) != nil {
+			continue
+		}
+		p := meta.Breaks
+		if p == "" {
+			p = meta.Property
+		}
+		if p != prop {
+			continue
+		}
+		dir := filepath.Dir(mp)
+		why := meta.Summary
+		if why == "" {
+			why = meta.What
+		}
+		if len(why) > 160 {
+			why = why[:160]
+		}
+		out = append(out, mutant{ID: "seeded/" + filepath.Base(dir), Prop: prop, Patch: filepath.Join(dir, "patch.diff"), Why: "seeded change: " + why})
+	}
+	return out
+}
+
+// patchOverlay applies a unified diff to copies of the files it names and returns {absolute path in repo: patched content}.
+func patchOverlay(repo, patch string) (map[string]string, error) {
+	b, err := os.ReadFile(patch)
+	if err != nil {
+		return nil, err
+	}
+	var rel []string
+	for _, line := range strings.Split(string(b), "\n") {
+		if strings.HasPrefix(line, "+++ b/") {
+			rel = append(rel, strings.TrimSpace(line[len("+++ b/"):]))
+		}
+	}
+	if len(rel) == 0 {
+		return nil, fmt.Errorf("no files in patch")
+	}
+	tmp, err := os.MkdirTemp("", "varmqlint-seed-*")
+	if err != nil {
+		return nil, err
+	}
+	defer os.RemoveAll(tmp)
+	for _, r := range rel {
+		src, err := os.ReadFile(filepath.Join(repo, r))
+		if err != nil {
+			src = nil // a file the patch creates
+		}
+		dst := filepath.Join(tmp, r)
+		os.MkdirAll(filepath.Dir(dst), 0o755)
+		if src != nil {
+			if err := os.WriteFile(dst, src, 0o644); err != nil {
+				return nil, err
+			}
+		}
+	}
+	cmd := exec.Command("git", "apply", "--whitespace=nowarn", patch)
+	cmd.Dir = tmp
+	cmd.Env = append(os.Environ(), "GIT_CEILING_DIRECTORIES="+filepath.Dir(tmp), "GIT_DIR=/nonexistent")
+	if out, err := cmd.CombinedOutput(); err != nil {
+		return nil, fmt.Errorf("patch does not apply: %s", strings.TrimSpace(string(out)))
+	}
+	files := map[string]string{}
+	for _, r := range rel {
+		nb, err := os.ReadFile(filepath.Join(tmp, r))
+		if err != nil {
+			return nil, err
+		}
+		files[filepath.Join(repo, r)] = string(nb)
+	}
+	return files, nil
 }
